@@ -6,10 +6,10 @@ From IdV Require Import Doc.Doc Storage.GenPurge Proofs.GenPurgeProofs.
 Import ListNotations.
 Open Scope Z_scope.
 
-Theorem C09_generate_atomic : forall st k u sc fs r st', ~ In k (s_keys st) ->
-  generate true st k u sc fs = (r, st') ->
+Theorem C09_generate_atomic : forall st k ou sc fs r st', ~ In k (s_keys st) ->
+  generate true st k ou sc fs = (r, st') ->
   match r with
-  | SOk => (exists d', insert_method (s_doc st) {| m_id := u; m_data := k |} sc = inl d' /\ s_doc st' = d')
+  | SOk => (exists u d', ou = Some u /\ insert_method (s_doc st) {| m_id := u; m_data := k |} sc = inl d' /\ s_doc st' = d')
            /\ In k (s_keys st') /\ kids_get (s_kids st ++ [(k, k)]) k = kids_get (s_kids st') k
   | SPlain => same_obs st' st
   | SUndoFailed => True
@@ -27,9 +27,15 @@ Theorem C09_purge_atomic : forall st u fs r st', purge st u fs = (r, st') ->
   end.
 Proof. exact purge_atomic. Qed.
 
+(* no fragment given and a store whose generated JWK carries no kid: the method cannot be built; never Ok, the key is removed again *)
+Theorem C09_generate_without_id : forall st k sc fs r st', ~ In k (s_keys st) -> generate true st k None sc fs = (r, st') ->
+  (r = SPlain /\ same_obs st' st) \/ r = SUndoFailed.
+Proof. exact generate_no_id. Qed.
+Print Assumptions C09_generate_without_id.
+
 (* the rollback by remove_method (instead of restoring the saved document) is refuted *)
 Theorem C09_generate_rollback_refuted : exists st k u sc fs st',
-  ~ In k (s_keys st) /\ generate false st k u sc fs = (SPlain, st') /\ s_doc st' <> s_doc st.
+  ~ In k (s_keys st) /\ generate false st k (Some u) sc fs = (SPlain, st') /\ s_doc st' <> s_doc st.
 Proof. exact generate_rollback_refuted. Qed.
 
 Print Assumptions C09_generate_atomic.
